@@ -98,6 +98,39 @@ def validate_traces(v, records, sc, tag):
     return {"events": n, "viol": viol}
 
 
+def repo_tests_traces(sc, tier):
+    """Direction B on the repository's own tests: their pipeline runs, traced by the hooks, must obey the same ordering rules."""
+    out = os.path.join(sc, "repotests.ndjson")
+    pkgs = ["./test/sanity/...", "./test/diagnostics/...", "./test/errorhandling/..."]
+    if tier == "thorough":
+        pkgs += ["./test/commandline/...", "./test/security/...", "./test/alias/...", "./test/generics/...", "./test/specials/...", "./test/imports/...", "./e2e/..."]
+    p = subprocess.run([os.path.join(c.VERIF, "tools", "repotests_trace.sh"), out] + pkgs, stdout=subprocess.PIPE, stderr=subprocess.STDOUT, text=True, env=c.goenv())
+    events, lines = [], []
+    last_pkg, seen_graph = None, False
+    for line in open(out):
+        ev = json.loads(line)
+        pkg = ev.pop("pkg", "")
+        ev.pop("seq", None)
+        if pkg != last_pkg or ev["event"] == "ConfigRead" or (ev["event"] == "GraphGenerated" and seen_graph):
+            lines.append({"event": "Run", "cmd": "repo-test " + pkg, "version": "3.0.0", "lenient": True})
+            seen_graph = False
+        last_pkg = pkg
+        if ev["event"] == "GraphGenerated":
+            seen_graph = True
+        lines.append(ev)
+    if not lines:
+        return {"events": 0, "viol": [], "packages": pkgs, "log": p.stdout[-500:]}
+    r = c.tlc("PipelineTrace", "PipelineTrace.cfg", workers=1, defines={"pipeline_trace.ndjson": "".join(json.dumps(x) + "\n" for x in lines)}, timeout=1200)
+    if (r.error and not r.postcondition_false) or r.rc == 124 or r.depth - 1 != len(lines):
+        raise c.Trouble("validation of the repository tests' traces failed to run:\n" + r.out[-2000:])
+    viol = []
+    for line in r.out.splitlines():
+        if line.startswith('"VIOL '):
+            parts = line.strip('"').split()
+            viol.append({"prop": parts[1], "id": "repo-tests", "run": lines[int(parts[2]) - 1].get("event", ""), "event": " ".join(parts[3:]) + " (trace line %s of the repository tests)" % parts[2]})
+    return {"events": len(lines), "viol": viol, "packages": pkgs}
+
+
 def build_recording(tier):
     d, base = cache_dir(tier)
     done = os.path.join(d, "DONE")
@@ -135,7 +168,7 @@ def build_recording(tier):
     V0, A0 = ["--validate=false"], ["--alt=false"]
     plan = [("Pipeline_c04.cfg", None, 500 if thorough else 40, V0), ("Pipeline_c01sim.cfg", 1200 if thorough else 40, None, V0),
             ("Pipeline_sim.cfg", 2500 if thorough else 50, None, V0), ("Pipeline_c06sim.cfg", 1500 if thorough else 40, None, V0),
-            ("Pipeline_c07sim.cfg", 1500 if thorough else 40, None, V0), ("Pipeline_c10.cfg", None, 500 if thorough else 60, A0),
+            ("Pipeline_c07sim.cfg", 1500 if thorough else 40, None, V0), ("Pipeline_c10.cfg", None, 1000 if thorough else 90, A0),
             ("Pipeline_c14sim.cfg", 2000 if thorough else 60, None, V0)]
     if thorough:
         plan.append(("Pipeline_c10sim.cfg", 1500, None, A0))
@@ -195,7 +228,11 @@ def build_recording(tier):
     j13 = judge(v, rec13, os.path.join(d, "judged13.json"))
     tv = validate_traces(v, rec, sc, "main")
     tv13 = validate_traces(v, rec13, sc, "c13")
-    meta["trace"] = {"events": tv["events"] + tv13["events"], "viol": tv["viol"] + tv13["viol"]}
+    rt = repo_tests_traces(sc, tier)
+    if rt["viol"]:
+        raise c.Trouble("the repository's own tests produce traces the trace specification rejects (spec too strict or hook misplaced): %s" % rt["viol"][:3])
+    meta["repo_tests"] = {"events": rt["events"], "packages": rt["packages"]}
+    meta["trace"] = {"events": tv["events"] + tv13["events"] + rt["events"], "viol": tv["viol"] + tv13["viol"]}
     meta["wall"] = round(time.time() - t0, 1)
     json.dump(meta, open(os.path.join(d, "meta.json"), "w"), indent=1)
     c.log("recording: %d cases (%d accepted) + %d C13 cases, %d hook events validated by TLC, %.0fs" %
